@@ -188,8 +188,15 @@ impl PrometheusBuilder {
     {
         use std::str::FromStr;
 
-        let address = IpNet::from_str(address.as_ref())
-            .map_err(|e| BuildError::InvalidAllowlistAddress(e.to_string()))?;
+        let address = address.as_ref();
+        let address = match IpNet::from_str(address) {
+            Ok(net) => net,
+            // Not in CIDR notation: a plain IP address stands for the network that contains just that address.
+            Err(e) => match IpAddr::from_str(address) {
+                Ok(ip) => IpNet::from(ip),
+                Err(_) => return Err(BuildError::InvalidAllowlistAddress(e.to_string())),
+            },
+        };
         self.allowed_addresses.get_or_insert(vec![]).push(address);
 
         Ok(self)
